@@ -746,6 +746,9 @@ def _norm1(e, ctx):
             return a[2]
         if op == 'not' and a[0] == 'const' and (isinstance(a[1], (bool, int)) or a[1] is None):
             return ('const', not a[1])
+        if op == 'not' and a[0] in ('and', 'or'):
+            # De Morgan (as a truth value): not (p and q) == (not p) or (not q)
+            return ('or' if a[0] == 'and' else 'and', tuple(('un', 'not', x) for x in a[1]))
         if op == 'not' and a[0] == 'cmp':
             inv = {'==': '!=', '!=': '=='}
             if a[1] in inv:
